@@ -197,6 +197,8 @@ def _subscript(script, keep):
                 bad = True
             if any(r not in keepset for r in _refs_of(op)):
                 bad = True
+            if "dup_of" in op and (op["dup_of"] not in keepset or (i - 1) not in keepset or (i - 2) not in keepset):
+                bad = True
             if bad:
                 keepset.discard(i)
                 changed = True
@@ -210,13 +212,15 @@ def _subscript(script, keep):
                 if isinstance(v, dict) and len(v) == 1 and next(iter(v)) in ("$mb", "$np"):
                     kk = next(iter(v))
                     op["msg"][k] = {kk: remap[v[kk]]}
+        if "dup_of" in op:
+            op["dup_of"] = remap[op["dup_of"]]
         out.append(op)
     return out, order
 
 
 def minimize(check, payload, max_runs=400):
     script = payload.get("script")
-    if not isinstance(script, list) or len(script) < 2 or not getattr(check, "minimizable", True):
+    if not isinstance(script, list) or len(script) < 2 or not getattr(check, "minimizable", True) or os.environ.get("VCHECK_NOMIN"):
         return payload
     runs = [0]
     target = payload.get("sig")
